@@ -63,6 +63,33 @@ CLAIMED["C14"] = (
     "Coq kernel; extraction; harness/C14.cpp; hooks H1 (clock advancing on every reading) and H4; native stack exhaustion and real time are outside the model; a yielding loop (`while(1) { wait 0 }`) is outside the quantifier; see DESIGN.md 4/C14",
     "DESIGN.md 4 (C14)")
 
+CLAIMED["C02"] = (
+    "Coq proof that the bytecode verifier is sound (an accepted program is safe from every entry point for every path and every number of steps), over an instruction table regenerated from the binary built from the current tree on every run + the verifier run on every compiled program + the interpreter probed at every executed instruction (hook H4)",
+    "Theorems C02_*: C02_check_sound - if check p H = true then every configuration reachable from any entry point (start, labels, case and catch entries) in any number of steps is safe: it is the annotated one, decoding stays inside the program with all operand bytes, every branch lands on an instruction boundary, every embedded reference (string, command, switch table) exists, the height is never negative, agrees on all paths, stays within the declared stack size and is 0 at every OP_DONE; C02_table_matches_decode / C02_exec_agrees_with_table_view tie the stack-effect table to the instruction model; C02_error_path_preserves_discipline - a script error raised by any field or command opcode leaves code position and stack height where the annotation says (err_defective = [] on the current tree). The opcode numbers, operand sizes and table rows are dumped from the current binary into coq/C02/Generated.v on every run; every accepted program of the generators is verified by the extracted checker and its execution (offset, stack index) is compared with the annotation at every instruction.",
+    "Coq kernel; extraction; the optable dump of harness/C02.cpp; hook H4; that the instruction model is the interpreter is sampled (every executed instruction of every generated program is compared with the verified annotation); err_table is hand-written after the catch blocks of ScriptVM::Process; programs come from this unit's own grammar generator; see DESIGN.md 4/C02",
+    "DESIGN.md 4 (C02)")
+CLAIMED["C05"] = (
+    "Coq proof of refinement of the call protocol (parameter binding, label lookup, ScriptPointer registries of result holders under copy/move/destroy, scheduler) to a map call -> optional result, for all histories + extracted model/spec run against real scripts on the engine",
+    "Theorems C05_*: run ops = spec_run ops for every history of calls (any argument and parameter lists), copies/moves/destructions of result holders, waits, pauses, kills, thread ends with and without a value, and Reset; parameters are bound in order (missing = NIL, extra ignored); a call to a missing label leaves nothing behind; a synchronous result is the returned value; when a thread ends every holder pending on it receives the value (or NIL), whatever copies were made; a killed thread leaves its holders pending for ever and never gets a result; a delivered result is stable; no history hangs or touches a dead cell; every reachable heap has an exact pointer registry (each registry operation preserves the invariant). Tied to ScriptVM/ScriptThread/ScriptVariable/ScriptPointer by differential execution of generated scripts (argument lists to length 8, 9 value kinds, all schedules) under ASan.",
+    "Coq kernel; extraction; harness/C05.cpp + engine.h; hook H1; strings returned by threads are String-typed (a ConstString held by a host record dangles after Reset: host obligation); see DESIGN.md 4/C05",
+    "DESIGN.md 4 (C05)")
+CLAIMED["C18"] = (
+    "Coq proofs of refinement of Container, set/map, arrayset and str (code-level models: raw cells with construction/destruction, bucket chains and rehash, reference-counted string storage) to an abstract sequence / finite map / key list / byte string, for all histories + extracted models/specs run against the real templates with counting element types and colliding keys",
+    "Four units. C18con: Container refines a list on every history of its operations (capacity covers contents; constructions = destructions), Resize(0) refuted (known finding). C18set: con::set/con::map refine the finite map for every hash function, no operation fails, enumeration visits each entry once, resize/shrink keep every entry. C18arr: con::arrayset refines the list of keys (ids stable, find/at inverse) for every hash function and every growth step, chain walks terminate; remove() refuted (three known findings replayed on every run). C18str: str refines byte strings with explicit sharing on the safe alphabet (no string observes another's modification), the spec changes only the target; four precondition violations are pinned by _refuted theorems whose witnesses are re-run on the implementation. Each unit: all histories to length 4..6 over a 4-key universe plus random walks to 10^4 ops under ASan.",
+    "Coq kernel; extraction; harness/C18*.cpp; hash functions are Section variables; memory safety of the real templates is sampled by ASan; preconditions listed in the evidence assumptions; see DESIGN.md 4/C18",
+    "DESIGN.md 4 (C18)")
+
+CLAIMED["C04"] = (
+    "Coq proofs that the value-operation tables are total (a value or one typed script error, never anything else) and that the statement machine refines a specification in which an error only skips its own statement; the tables are compared by vm_compute with a dump of all operator results of the binary built from the current tree on every run + differential execution of generated statements",
+    "Theorems C04_*: C04_model_table_matches_binary / C04_operator_totality - all 31,949 entries (16 binary operators x 43^2 representative values of every kind, 12 unary operators and casts x 43, index read 43^2, five attribute tables) dumped from the current binary equal the model's tables; 25,213 are typed script errors, none is a foreign exception; every operation yields a value and at most one warning, and the prediction from the kinds alone agrees with the prediction from the values. C04_machine_refines_the_statement_specification (run = spec_run for every program of statements): the operand stack is empty after every statement, an expression leaves exactly one value, a script error never stops the thread or disturbs other statements, only end/delete end the thread. Generated and corpus statements (incl. a host class whose getter, setter and commands throw) are run on the engine under ASan/UBSan and compared with the extracted model: warning class, printed lines, completion, stack index 0 at thread end, a second thread and a sentinel script intact.",
+    "Coq kernel (vm_compute for the table comparison); extraction; the optable dump of harness/C04.cpp; hook H4; statement-level agreement, thread interference and all memory-safety observations are sampled; casts the C++ standard leaves undefined and double uses of a pending thread result are not predicted; see DESIGN.md 4/C04",
+    "DESIGN.md 4 (C04)")
+CLAIMED["C09"] = (
+    "Coq proof that save; reset; load yields a state isomorphic to the saved one and that isomorphic states behave alike for every later history + the real engine run twice (uninterrupted / save-reset-load before frame k, every k) with the loaded engine state dumped and compared with the model's",
+    "Theorems C09_*: for every well-formed state (reachable states are well-formed: C09_states_between_operations_are_saveable) save and load succeed and the loaded state is isomorphic to the saved one (equal up to renaming of thread and holder identities, dropping unreachable holders and the order of the instance list; timer order and due times, chain order, code positions, variable lists, sharing of arrays, holder contents, clocks are kept exactly); isomorphic states produce the same observations under every later history and stay isomorphic (C09_save_reset_load_is_transparent). The model extends the C06 scheduler with instances, thread chains, nested thread creation and locals of every archivable kind. On the engine: run A uninterrupted, run B_k with save / director.Reset() / load before frame k for every k (all k for short runs), output, wake-up order and final variables compared; after each load the engine's instances, threads and timer list are dumped and compared line by line with the model's loaded state. waittill/notify, pending events, group/level variables and entities are sampled on the engine only.",
+    "Coq kernel; extraction; harness/C09.cpp + engine.h; hook H1; host protocol: entities are archived, deleted around Reset and read back (a host that keeps entities across Reset must re-key its target list); loading into a different ScriptContext shifts timed waits (time base not archived: DESIGN.md 6, outside the property's reset); see DESIGN.md 4/C09",
+    "DESIGN.md 4 (C09)")
+
 NOT_YET = "no model, theorem and correspondence check has been built for this property yet (work in progress; see DESIGN.md 9 for the order of work)"
 
 
@@ -109,7 +136,8 @@ def main():
 
 
 NA = {}
-HOOK_COMMITS = ["5f437e9 verif hook H1: injectable millisecond clock for TimeManager"]
+HOOK_COMMITS = ["5f437e9 verif hook H1: injectable millisecond clock for TimeManager",
+                "01c6ecb verif hook H4: interpreter step and end probes (vmStepHook, vmEndHook)"]
 
 if __name__ == "__main__":
     main()
